@@ -64,50 +64,41 @@ Definition pmod (v : pval) : pstr :=
   | _ => s "builtins"
   end.
 
-(* ---- np.array(tmp, dtype="O"): the common regular nesting of lists/tuples becomes the shape ---- *)
-Fixpoint nlist_eqb (a b : list nat) : bool :=
-  match a, b with
-  | [], [] => true
-  | x :: a', y :: b' => Nat.eqb x y && nlist_eqb a' b'
-  | _, _ => false
+(* ---- NdArrayNode._construct, type "json", every rank but 1: content = np.empty(shape, dtype="O") is filled cell by cell,
+   the cell of index (i0, ..., ik) being nested[i0]...[ik] where nested = tmp (tmp[0] for the empty shape) ---- *)
+(* element[i]: what the loop can subscript.  A list or tuple (of any class); a set raises TypeError; indexing anything
+   else (str, dict, array, ...) is outside the model *)
+Definition sub_items (x : pval) : res (list pval) :=
+  match x with
+  | PSeq QSet _ _ _ _ _ => Raise EType
+  | PSeq _ _ _ _ _ l => Ok l
+  | _ => Raise EDomain
   end.
-Fixpoint lcp (a b : list nat) : list nat :=
-  match a, b with
-  | x :: a', y :: b' => if Nat.eqb x y then x :: lcp a' b' else []
-  | _, _ => []
+(* for i in range(d): rec(items[i]), in this order, the results concatenated; a missing element is an IndexError *)
+Fixpoint take_fill (rec : pval -> res (list pval)) (d : Z) (items : list pval) {struct items} : res (list pval) :=
+  if (d <=? 0)%Z then Ok [] else
+  match items with
+  | [] => Raise EOther
+  | x :: items' => do a <- rec x; do b <- take_fill rec (d - 1)%Z items'; Ok (a ++ b)
   end.
-Fixpoint common (ds : list (option (list nat))) : list nat :=
+(* the cells (C order) below x for the remaining axes ds *)
+Fixpoint fill (ds : list Z) (x : pval) {struct ds} : res (list pval) :=
   match ds with
-  | [] => []
-  | [Some d] => d
-  | Some d :: rest => lcp d (common rest)
-  | None :: _ => []
+  | [] => Ok [x]
+  | d :: ds' => do items <- sub_items x; take_fill (fill ds') d items
   end.
-Definition all_some {A} (l : list (option A)) : bool :=
-  forallb (fun o => match o with Some _ => true | None => false end) l.
-Fixpoint vdims (v : pval) : option (list nat) :=
+(* np.empty(shape, dtype="O"): the axes are non-negative ints *)
+Definition dim_of (v : pval) : res Z :=
   match v with
-  | PSeq QSet _ _ _ _ _ => None
-  | PSeq _ _ _ _ _ l =>
-      let ds := (fix go (l : list pval) : list (option (list nat)) :=
-                   match l with [] => [] | x :: l' => vdims x :: go l' end) l in
-      Some (length l :: (if all_some ds then common ds else []))
-  | _ => None
+  | PScalar _ (SInt z) => if (z <? 0)%Z then Raise EValue else Ok z
+  | _ => Raise EDomain
   end.
-Definition is_arraylike (v : pval) : bool :=
-  match v with PArr _ _ _ _ _ | PObjArr _ _ _ _ _ | PMasked _ _ _ _ _ | PSparse _ _ _ _ => true | _ => false end.
-Definition seq_items (v : pval) : list pval :=
-  match v with PSeq _ _ _ _ _ l => l | _ => [] end.
-Fixpoint flatten_to (depth : nat) (l : list pval) : list pval :=
-  match depth with
-  | O => l
-  | S d => flatten_to d (flat_map seq_items l)
+(* the index iterator (np.ndindex over the shape) is empty as soon as one axis has length 0: then nothing is subscripted at all *)
+Definition fill_array (shape : list Z) (tmp : list pval) : res (list pval) :=
+  match shape with
+  | [] => match tmp with x :: _ => Ok [x] | [] => Raise EOther end       (* nested = tmp[0] *)
+  | d :: ds => if existsb (Z.eqb 0) shape then Ok [] else take_fill (fill ds) d tmp
   end.
-Definition np_array_obj (tmp : list pval) : res (list Z * list pval) :=
-  if existsb is_arraylike (flatten_to 3 tmp ++ flatten_to 2 tmp ++ flatten_to 1 tmp ++ tmp) then Raise EDomain else
-  let ds := map vdims tmp in
-  let dims := length tmp :: (if all_some ds then common ds else []) in
-  Ok (map Z.of_nat dims, flatten_to (length dims - 1) tmp).
 
 Fixpoint strip_prefix (p t : pstr) : option pstr :=
   match p, t with
@@ -272,8 +263,9 @@ Section Construct.
               do dims <- as_items shape;
               do tmp <- mapM sub (strip_empty LEmptyList (rev cells_rev));
               match dims with
-              | [_] => Ok (PObjArr id (s "numpy") (s "ndarray") [Z.of_nat (length tmp)] tmp)
-              | _ => do (sh, cells) <- np_array_obj tmp;
+              | [_] => Ok (PObjArr id (s "numpy") (s "ndarray") [Z.of_nat (length tmp)] tmp)     (* len(tmp) decides, not the shape *)
+              | _ => do sh <- mapM dim_of dims;                  (* np.empty(shape, dtype="O"); nothing to check for shape () *)
+                     do cells <- fill_array sh tmp;
                      Ok (PObjArr id (s "numpy") (s "ndarray") sh cells)
               end
           | [] => Raise EOther
